@@ -164,6 +164,11 @@ def check_gnmiset(prop, tier, seed, work, modes, model_props):
             raise Infra("replay of slice %s evaluated nothing" % name)
         results.append(r)
         if prop == "C13":
+            # extension beyond the listed properties: BestEffortUnmarshal with one operation that cannot
+            # be applied (drift notes only); a thinner sample of the same requests
+            xargs = ["-in", em["out"], "-modes", "setreq-besteffort", "-seed", str(seed), "-prop", prop, "-pkgs", ",".join(cfgs), "-limit", "30" if tier == "quick" else "5"]
+            results.append(run_replay(bindir, h, "setreq", xargs, work, "be" + name))
+        if prop == "C13":
             # multi-operation requests and histories of requests: random behaviours of the same
             # machine with the request assembled operation by operation (SpecB), MaxOps = 3
             simcfg = (GNMI_CFG % dict(consts, maxops=3)).replace("SPECIFICATION Spec", "SPECIFICATION SpecB")
